@@ -9,12 +9,12 @@ import json
 from mc.harness import methods
 from mc.harness.server import Sys
 from mc.refmodel import server as ref
-from mc.refmodel.server import NOTHING
+from mc.refmodel.server import NOTHING, REQ
 from mc.refmodel.wire import INVALID, request_object_class
 
 from .common_server import norm, obs_key, observe, outcome_class
 
-TABLE = methods.STD_TABLE
+TABLE = dict(methods.STD_TABLE, push=dict(kind='viewstate', params=[('x', REQ)]))
 
 # element kinds: (label, method, params | None)
 KINDS = [
@@ -27,6 +27,7 @@ KINDS = [
     ('perr', 'perr', None),
     ('boom', 'boom', [5]),
     ('boomt', 'boomt', [5]),       # a TypeError raised by the body itself (not by the call)
+    ('push', 'push', [4]),         # a method of a stateful class based view registered without a context
 ]
 INVALID_ELEMS = [1, {}, {'jsonrpc': '2.0', 'method': 1, 'id': 7}, {'jsonrpc': '2.0', 'method': 'ok', 'params': None, 'id': 8},
                  {'jsonrpc': '2.0', 'method': 'ok', 'params': 0}]
